@@ -11,7 +11,7 @@ from pathlib import Path
 VERIF = Path(__file__).resolve().parents[2]
 src, base = Path(sys.argv[1]).resolve(), sys.argv[2]
 apply = "--apply" in sys.argv
-IGN = (".lake", "lean/PgVerif/Gen/", "lean/PgVerif/Audit/", "evidence/", "replays/", "__pycache__", "seeded/", "probes/", "MANIFEST.json", ".git")
+IGN = ("harness/stamps.lock.json", "known_findings.json", ".lake", "lean/PgVerif/Gen/", "lean/PgVerif/Audit/", "evidence/", "replays/", "__pycache__", "seeded/", "probes/", "MANIFEST.json", ".git")
 
 
 def ignored(rel):
